@@ -204,6 +204,43 @@ def run(ctx):
         ok = "if previous_state == GzipDecoderState.OTHER_MEMBERS:" in body_txt and body_txt.rstrip().endswith("raise")
     ctx.ob(R4, gz.qual, "a zlib error in the first gzip member propagates (only trailing garbage after a complete member is ignored)", ok)
 
+    # the tolerant state may only be entered once a complete member was followed by more data
+    class GzRule(BaseRule):
+        def __init__(self):
+            self.sets = []
+
+        def getattr(self, it, st, node, base):
+            t = ast.unparse(node)
+            if t == "self._obj.unused_data":
+                return AV("unk", sym="unused")
+            if t.startswith("GzipDecoderState."):
+                return AV("const", ("enum", node.attr), truth=True, none=False)
+            return None
+
+        def setattr(self, it, st, target, base, av):
+            if ast.unparse(target) == "self._state" and av.kind == "const" and av.val == ("enum", "OTHER_MEMBERS"):
+                self.sets.append((st.facts.get("unused", (None, None))[0], st.copy(), target))
+
+        def call(self, it, st, node, recv, pos, kw):
+            t = ast.unparse(node.func)
+            if t == "self._obj.decompress":
+                s = st.copy()
+                s.facts.pop("unused", None)
+                return [Out("normal", s, AV("unk", none=False)), Out("raise", s.copy(), exc("zlib.error"))]
+            return [Out("normal", st, AV("unk", none=False))]
+
+    grule = GzRule()
+    outs, it = run_function(m, gz, grule, f"{RS}.GzipDecoder", seeds={("self", "_state"): AV("unk", sym="state")})
+    ctx.sites(R4, len(grule.sets), 1, "transitions of the gzip decoder into the tolerant state")
+    seen_g = set()
+    for unused_truth, st_, node_ in grule.sets:
+        if unused_truth in seen_g:
+            continue
+        seen_g.add(unused_truth)
+        ok = unused_truth is True
+        ctx.ob(R4, gz.qual, f"OTHER_MEMBERS is entered with unused_data truthy={unused_truth} (a complete member followed by more data)", ok,
+               "" if ok else "the decoder starts tolerating zlib errors before the first member is known to be complete: corruption in a later piece of an incrementally read body is swallowed as 'trailing garbage'", witness=st_.witness(), node=node_)
+
     # ------------------------------------------------------------------ R5 conflicting lengths
     R5 = ctx.rule("C13-R5", "conflicting Content-Length values raise InvalidHeader; with chunked transfer-encoding the length is ignored", "E5 on _init_length")
     il = m.method(HR, "_init_length")
